@@ -96,7 +96,7 @@ func NewContractSet() *ContractSet {
 	return &ContractSet{Specs: map[string]*SpecFunc{}, Funcs: map[string]*FuncContract{}, Lemmas: map[string]*Lemma{}}
 }
 
-var kwRe = regexp.MustCompile(`^(pure|func|lemma|requires|ensures-bounded|ensures|opaque|replay|locals|loop|invariant|decreases|axiom|def|use|assert|table|literal|note|terminates)\b`)
+var kwRe = regexp.MustCompile(`^(pure|func|lemma|requires|ensures-bounded|ensures|opaque|replay|locals|loop|invariant|decreases|axiom|assume|def|use|assert|table|literal|note|terminates)\b`)
 var labelRe = regexp.MustCompile(`^@([A-Za-z0-9_\-/.]+):\s*`)
 
 type rawLine struct {
@@ -228,6 +228,13 @@ func (cs *ContractSet) LoadContractFile(path, pkgPath string, trusted bool) erro
 				return fmt.Errorf("%s:%d: %v", path, r.line, err)
 			}
 			curSpec.Def = e
+		case "assume":
+			// assume <expr>: a global axiom of the contract library, wherever it stands
+			c, err := mkClause(r)
+			if err != nil {
+				return err
+			}
+			cs.Axioms = append(cs.Axioms, c)
 		case "axiom":
 			c, err := mkClause(r)
 			if err != nil {
